@@ -583,3 +583,11 @@ def run(chk):
     entry = chk.guard("O11.1", "<package>", creators, chk)
     chk.guard("O11.3", "<routing>", routing, chk, entry)
     chk.guard("O11.4", "<contexts>", context_rule, chk)
+    # "executed" payloads are coroutine payloads of the runtime too: each runner routes them into ITS OWN loop / trio
+    # run (the runner's loop, the runner's token -- O10.4 / O10.5, shared with C10); a missing or foreign token lets
+    # trio pick whatever run the calling thread belongs to
+    from . import c10
+
+    res = chk.guard("O10.4", "<execute chain>", c10.chain_functions, chk)
+    if res:
+        chk.guard("O10.4", "<leaves>", c10.leaves, chk, res[0])
